@@ -125,9 +125,10 @@ def run(path, rlimit=None, threads=8, multiple_errors=4, seed=None, extra=(), ti
     return {'cmd': ' '.join(cmd), 'rc': rc, 'json': res, 'diags': diags, 'stderr_other': other, 'wall': wall}
 
 
-def classify(r, gm):
+def classify(r, gm, gen_name=''):
     """returns (failures, tool_errors, rlimit_hits, notes).  failure = dict(fn, where, obligation, kind, message, line, text)"""
     failures, tool, rl = [], [], []
+    gen_name = gen_name or os.path.basename(r['cmd'].split()[1])
     for d in r['diags']:
         lvl = d.get('level')
         msg = d.get('message', '')
@@ -135,7 +136,7 @@ def classify(r, gm):
             continue
         if msg.startswith('aborting due to'):
             continue
-        spans = d.get('spans', [])
+        spans = [s for s in d.get('spans', []) if os.path.basename(s.get('file_name', gen_name)) == gen_name] or d.get('spans', [])
         prim = [s for s in spans if s.get('is_primary')] or spans
         if RLIMIT.search(msg):
             ln = prim[0]['line_start'] if prim else 0
@@ -157,8 +158,15 @@ def classify(r, gm):
         sent = None
         for s in spans:
             sent = sent or gm.sentinel_at(s['line_start'], s['line_end'])
-        # prefer label from secondary spans (the failed clause), then primary
-        for s in [x for x in spans if not x.get('is_primary')] + prim:
+        # which span names the failed clause: for a postcondition it is the PRIMARY span (the ensures clause; the secondary
+        # span is the function body / return site); for a precondition, invariant etc. it is the secondary span that Verus
+        # labels "failed ..." (the clause), the primary being the call site / loop
+        sec = [x for x in spans if not x.get('is_primary')]
+        if msg.startswith('postcondition') or msg.startswith('loop ensures') or msg.startswith('at the break'):
+            order = prim + [x for x in sec if 'failed' in (x.get('label') or '')]
+        else:
+            order = [x for x in sec if 'failed' in (x.get('label') or '')] + prim + [x for x in sec if 'failed' not in (x.get('label') or '')]
+        for s in order:
             label = gm.label_at(s['line_start'], s['line_end'])
             if label:
                 break
